@@ -10,7 +10,41 @@ META = {
 }
 
 
+def grids(rep, tier):
+    import time
+    from vrf.core import Result, VIOLATED, BOUNDED_OK
+    from vrf.propkit import pool_map
+    from vrf.bounded.scope_grid import cases, run_case, reserved_grid
+    t0 = time.time()
+    outs = [o for o in pool_map(run_case, list(cases())) if o is not None]
+    bad = [o for o in outs if o[0] in ("bad", "error")]
+    skipped = sum(1 for o in outs if o[0] == "skipped")
+    bound = "binding-site sets (empty, singles, all pairs, 7 larger sets over context / page arg / body assignment / def argument / enclosing-def local / loop target / module-level / imported def) x 12 read sites x strict_undefined on/off; %d combinations where the statement is silent skipped" % skipped
+    if bad:
+        b = bad[0]
+        w = {"bindings": list(b[1][0]), "read_site": b[1][1], "strict_undefined": b[1][2], "template": b[2], "problem": b[3]}
+        rep.add(Result("C04.scope-grid", VIOLATED, klass="B", backend="native-oracle", function="generated", bound=bound, evaluations=len(outs),
+                       detail="name resolved against the stated order: %s" % b[3], witness=w, replayed=True,
+                       replay={"failures": [{"bindings": list(x[1][0]), "read_site": x[1][1], "strict_undefined": x[1][2], "template": x[2], "problem": x[3]} for x in bad[:3]]},
+                       time_s=time.time() - t0))
+    else:
+        rep.add(Result("C04.scope-grid", BOUNDED_OK, klass="B", backend="native-oracle", function="generated", bound=bound, evaluations=len(outs),
+                       time_s=time.time() - t0, detail="every read resolved to the binding the stated order selects (or UNDEFINED / NameError under strict_undefined)"))
+    t1 = time.time()
+    n, bad2 = reserved_grid()
+    bound2 = "reserved names x 8 assignment forms x enable_loop on/off, and x 5 render entry points"
+    if bad2:
+        rep.add(Result("C04.reserved-grid", VIOLATED, klass="B", backend="native-oracle", function="mako.codegen:_Identifiers / mako.runtime:Context", bound=bound2,
+                       evaluations=n, detail=bad2[0]["problem"], witness=bad2[0], replayed=True, replay={"failures": bad2[:3]}, time_s=time.time() - t1))
+    else:
+        rep.add(Result("C04.reserved-grid", BOUNDED_OK, klass="B", backend="native-oracle", function="mako.codegen:_Identifiers / mako.runtime:Context", bound=bound2,
+                       evaluations=n, time_s=time.time() - t1, detail="every assignment form and every render entry point raised NameConflictError"))
+
+
 def run(rep, tier):
     rep.trust(*BASE_TRUST)
     rep.assume(*BASE_ASSUME)
     run_pyvc(rep, contracts_for("C04"), native_limit=150 if tier == "quick" else 600)
+    grids(rep, tier)
+    from vrf.propkit import link_bounded_witness
+    link_bounded_witness(rep, only=lambda r: "write_def_decl" in r.oid)
